@@ -64,6 +64,16 @@ def main():
 
 def run(prop, tier, seed, workdir, t0, replay):
     P = plan.PLAN[prop]
+    if replay:
+        from vx import witness as W
+        got = W.replay(prop, replay, REPO, VERIF, workdir, log)
+        if got is True:
+            log(f"VIOLATION property={prop} replay={replay}")
+            return 1
+        if got is False:
+            log(f"replay: the recorded input no longer fails on this tree")
+            return 0
+        log("replay file carries no concrete input; re-running the check to see whether the recorded obligations still fail")
     stages = []
     jobs = []
     with cf.ThreadPoolExecutor(max_workers=8) as ex:
